@@ -438,3 +438,32 @@ def _cu_header_layout(name):
 
 
 _cu_header_layout('Dwarf_CU_header')
+
+
+def _tu_header_layout(name='Dwarf_TU_header'):
+    """Dwarf_TU_header (DWARF v4 7.5.1.2): the compilation unit header followed by the 8-byte type signature and the
+    offset-sized type_offset; every member is a leaf function of (bytes, offset) (K2 compares the real construct
+    tree with the layout in every configuration)"""
+    lay = Layout(name, None)
+
+    def custom(I, M, stream, owner, ln, exc):
+        from pyvc.ctx import PyExc
+        from pyvc.vals import ArrS, IntS, BoolS, to_int, SRec
+        p, L = to_int(stream.pos), to_int(stream.length)
+        ok = z3.Function('ok!' + name, ArrS, IntS, IntS, BoolS)(stream.arr, L, p)
+        end = z3.Function('end!' + name, ArrS, IntS, IntS)(stream.arr, p)
+        if not I.ctx.branch(ok):
+            raise PyExc(exc if exc != 'ConstructError' else 'FieldError', ln, 'short read in ' + name)
+        fields = {f: z3.Function('%s.%s' % (name, f), ArrS, IntS, IntS)(stream.arr, p)
+                  for f in ('unit_length', 'version', 'debug_abbrev_offset', 'address_size', 'signature', 'type_offset')}
+        I.ctx.assume(z3.And(fields['unit_length'] >= 0, fields['version'] >= 0, fields['version'] < 65536,
+                            fields['debug_abbrev_offset'] >= 0, fields['address_size'] >= 0, fields['address_size'] < 256,
+                            fields['signature'] >= 0, fields['signature'] < 2 ** 64, fields['type_offset'] >= 0,
+                            end >= p + 23, end <= L))
+        stream.pos = end
+        return SRec(fields, 'Container')
+    lay.custom = custom
+    LAYOUTS[name] = lay
+
+
+_tu_header_layout()
